@@ -52,6 +52,7 @@ class Harness:
         self.np, self.cv2, self.sparse, self.pf, self.layout = np, cv2, sparse, pf, layout
         self.writes = 0
         self.kill_at = None
+        self.in_write = False
         self.processed = []
         self._patch()
 
@@ -90,16 +91,35 @@ class Harness:
                 if h.kill_at is not None and h.kill_at >= 0 and h.writes == h.kill_at:
                     raise Kill()
                 h.writes += 1
-                r = fn(*a, **k)
+                h.in_write = True
+                try:
+                    r = fn(*a, **k)
+                finally:
+                    h.in_write = False
                 if h.kill_at is not None and h.kill_at < 0 and h.writes == -h.kill_at:
                     raise Kill()
                 return r
+            return wrapped
+
+        def ser_guard(fn):
+            # kill_at = k + 0.5: killed INSIDE write k+1, at the moment the writer starts to serialise the document (a writer that has
+            # created its file by then leaves an empty file behind, which a directory listing takes for a finished output)
+            def wrapped(*a, **k):
+                if h.kill_at is not None and h.in_write and h.kill_at == h.writes - 0.5:
+                    raise Kill()
+                return fn(*a, **k)
             return wrapped
         PL = layout.PageLayout
         for name in ('to_pagexml', 'save_logits', 'to_altoxml'):
             orig = getattr(PL, name)
             if not getattr(orig, '_vf_guard', False):
                 w = guard(orig)
+                w._vf_guard = True
+                setattr(PL, name, w)
+        for name in ('to_pagexml_string', 'to_altoxml_string'):
+            orig = getattr(PL, name)
+            if not getattr(orig, '_vf_guard', False):
+                w = ser_guard(orig)
                 w._vf_guard = True
                 setattr(PL, name, w)
         if not getattr(self.cv2.imwrite, '_vf_guard', False):
@@ -257,6 +277,8 @@ def plans(thorough):
             out.append((ids, ks, (k1,)))
             if k1 >= 1:
                 out.append((ids, ks, (-k1,)))        # the same gap, killed at its earliest point
+            if k1 < n and ('xml' in ks or 'alto' in ks):
+                out.append((ids, ks, (k1 + 0.5,)))   # inside write k1+1, when the XML writer starts to serialise
         if thorough or len(ks) >= 3:
             step = 1 if (thorough and len(ks) <= 3) else 3
             for k1 in range(0, n + 1, step):
